@@ -116,7 +116,7 @@ def corrupt_badsmell(recs):
 
 def corrupt_testsmell(recs):
     i = _first(recs, lambda r: r["observed"]["findings"])
-    recs[i]["observed"]["findings"][0]["line"] += 1000
+    recs[i]["observed"]["findings"].append(dict(recs[i]["observed"]["findings"][0]))   # one finding reported twice
     return i
 
 
